@@ -525,6 +525,22 @@ Definition dispatch_reader (op : bytes) (args : list arg) : option obs :=
     | [AB data; AN mode] => Some (extract_obs data mode)
     | _ => None end
   else if is_op op "wprog" then Some (wprog_obs args)
+  (* C08: the header writers on arbitrary 64-bit values.
+     c08hdr name method crc csize usize header_start large perm -> [local header, central header]
+     c08end n central_start central_size comment                -> end records *)
+  else if is_op op "c08hdr" then
+    match args with
+    | [AB name; AN m; AN c; AN cs; AN us; AN hs; AN large; AN perm] =>
+        let f := {| w_system := 3; w_made_by := Gen.TypesGen.DEFAULT_VERSION; w_encrypted := false;
+                    w_method := CompressionMethod_from_u16 m; w_level := None; w_time := DateTime_default;
+                    w_crc := c; w_csize := cs; w_usize := us; w_name := name; w_extra := [];
+                    w_header_start := hs; w_data_start := 0; w_ext_attr := (perm * 65536) mod 2 ^ 32; w_large := negb (large =? 0) |} in
+        Some (OL [res_obs (fun cs => OB (concat cs)) (local_header_chunks f); res_obs (fun cs => OB (concat cs)) (central_header_chunks f)])
+    | _ => None end
+  else if is_op op "c08end" then
+    match args with
+    | [AN n; AN cstart; AN csize; AB comment] => Some (OB (concat (end_records n cstart csize comment)))
+    | _ => None end
   else if is_op op "byname" then
     match args with
     | [AB data; AB name] =>
